@@ -242,6 +242,9 @@ func (it *Interp) callBuiltin(b *ssa.Builtin, args []Value, call *ssa.CallCommon
 			m.Vals = append(m.Vals[:i:i], m.Vals[i+1:]...)
 		}
 		return nil
+	case "close":
+		it.chanClose(args[0])
+		return nil
 	case "panic":
 		panic(&GoPanic{Val: args[0], Msg: it.panicMsg(args[0]), Kind: "explicit", Pos: it.where()})
 	case "recover":
@@ -716,16 +719,24 @@ func (it *Interp) chanSend(ch Value, v Value) {
 	if !ok || c == nil {
 		it.abort("send on %T/nil channel", ch)
 	}
+	if it.chanClosedSet()[c] {
+		it.goPanicStr("send-closed-chan", "send on closed channel")
+	}
 	c.Buf = append(c.Buf, deepCopy(v))
 }
 
-func (it *Interp) chanRecv(ch Value, commaOk bool) Value {
+func (it *Interp) chanRecv(ch Value, commaOk bool, chanType types.Type) Value {
 	c, ok := ch.(*ChanObj)
 	if !ok || c == nil {
 		it.abort("receive on %T/nil channel", ch)
 	}
 	if len(c.Buf) == 0 {
 		it.runPendingGoroutines()
+	}
+	if len(c.Buf) == 0 {
+		if r, ok := it.chanRecvClosed(c, commaOk, chanType); ok {
+			return r
+		}
 	}
 	if len(c.Buf) == 0 {
 		it.abort("receive on empty channel would block forever (no runnable goroutine)")
